@@ -391,3 +391,12 @@ def run(prog, chk):
                   "(`a->F = dup(b->F)` for two objects of one record type)", primary=False, floor=5)
     if memrules.dup_field_correspondence(prog, r6) < 5:
         raise Broken("fewer than 5 duplicated-field stores found")
+
+    r7 = chk.rule("R7-hash-key-length", "every HASH_ADD_KEYPTR stores, as the key length, u_strlen(K) * sizeof(UChar) of the very key K "
+                  "it stores (packets and tables are found again under the key they were filed under)", primary=False, floor=5)
+    if memrules.hash_key_length(prog, r7) < 5:
+        raise Broken("fewer than 5 uthash insertions found")
+    r8 = chk.rule("R8-clean-helpers-reset-pointers", "`*_clean` helpers reset the pointers they free (every (re)initialising function "
+                  "releases previous content through them and keeps using the object)", primary=False, floor=4)
+    if memrules.clean_helpers_reset(prog, r8) < 4:
+        raise Broken("fewer than 4 frees in *_clean helpers")
